@@ -10,6 +10,10 @@
 //!         step — result `c` — must repeat the previous step's sets; the driver checks that and removes the step before
 //!         the model / the Spec oracle see the history).  Handles are the numbers working memory hands out (1, 2, …); they
 //!         are decimal numbers of any length and premise lists have any length (`L12,7,30,1,2,44,9,10`).
+//!         Rule names: every logical token (`L`, `Lk`, `J`, `Fl`) may end in `@<n>` = the SOURCE-RULE NAME handed to the call is
+//!         entry n of `RULE_NAMES` (empty, blank, very long, non-ASCII, names of other justifications, fact types, words such as
+//!         "explicit"); without the suffix the names are "rule" (L, Lk, Fl) and "rule2" (J) as before. The name is a label: the
+//!         model, the oracle and every other part of this file see the history WITHOUT the suffixes (`parse_case`).
 //! obs  := step;step;…  step := res/present/logical/explicit/valid/stats
 //!         res = h<k> | u | ok:<cascade> | err ; the four sets are over the universe 1..=K
 //!         (K = max(#inserting ops + 1, largest handle mentioned)), sorted; stats = TmsStats fields.
@@ -148,7 +152,61 @@ fn show_op(o: &Op) -> String {
 }
 
 fn parse_case(case: &str) -> Option<Vec<Op>> {
-    case.split_whitespace().map(parse_op).collect()
+    parse_case_named(case).map(|(ops, _)| ops)
+}
+
+/// the source-rule names a logical token's `@<n>` suffix selects (the whole class of "the rule name as an input": the name is a
+/// label and must never influence support). Entry 0 is the empty string so that minimised inputs read `L1@0`.
+fn rule_names() -> &'static Vec<String> {
+    static NAMES: std::sync::OnceLock<Vec<String>> = std::sync::OnceLock::new();
+    NAMES.get_or_init(|| {
+        let mut v: Vec<String> = [
+            "", " ", "\t\n", "rule", "rule2", "D", "F", "T", "P", "explicit", "Explicit", "logical", "None", "null", "0", "-1",
+            "  rule  ", "\u{0}", "\u{feff}", "r\u{e8}gle", "re\u{301}gle", "\u{89c4}\u{5219}", "\u{1f525}", "killF", "act", "a\"b\\c", "Some(\"rule\")",
+            "rule \"x\" { when F.v > 0 then retract($F); }", "D.id=1", "*", "%", "\u{1}0\u{2}",
+        ]
+        .iter()
+        .map(|s| s.to_string())
+        .collect();
+        v.push("r".repeat(300));
+        v.push("\u{89c4}".repeat(10_000));
+        v.push(" ".repeat(64));
+        v
+    })
+}
+
+fn is_logical_tok(o: &Op) -> bool {
+    matches!(o, Op::L(_) | Op::J(..) | Op::Ext(Ext::Lk(_)) | Op::Ext(Ext::F(Act::L(_))))
+}
+
+/// the operations of a case and, per operation, the index of the rule name its token selects (`None`: the default name)
+fn parse_case_named(case: &str) -> Option<(Vec<Op>, Vec<Option<usize>>)> {
+    let mut ops = Vec::new();
+    let mut names = Vec::new();
+    for t in case.split_whitespace() {
+        let (body, name) = match t.split_once('@') {
+            Some((b, n)) => (b, Some(n.parse::<usize>().ok().filter(|i| *i < rule_names().len())?)),
+            None => (t, None),
+        };
+        let op = parse_op(body)?;
+        if name.is_some() && !is_logical_tok(&op) {
+            return None;
+        }
+        ops.push(op);
+        names.push(name);
+    }
+    Some((ops, names))
+}
+
+fn show_case_named(ops: &[Op], names: &[Option<usize>]) -> String {
+    ops.iter()
+        .zip(names)
+        .map(|(o, n)| match n {
+            Some(i) if is_logical_tok(o) => format!("{}@{}", show_op(o), i),
+            _ => show_op(o),
+        })
+        .collect::<Vec<_>>()
+        .join(" ")
 }
 
 fn show_case(ops: &[Op]) -> String {
@@ -289,9 +347,29 @@ struct Run {
     k: u64,
     deep: bool,
     steps: Vec<String>,
+    name: Option<usize>, // the rule name the current operation's token selects
 }
 
 impl Run {
+    /// the source-rule name of the current logical operation (`default`: what the harness always passed before)
+    fn rule_name(&self, default: &str) -> String {
+        match self.name {
+            Some(i) => rule_names()[i].clone(),
+            None => default.to_string(),
+        }
+    }
+    /// post-condition of recording a logical justification for `h`: the newest justification of `h` is Logical, names exactly the
+    /// rule it was given (also the empty name) and lists exactly the premises it was given
+    fn name_flag(&self, h: u64, name: &str, ps: &[u64]) -> &'static str {
+        let ok = |t: &TruthMaintenanceSystem| {
+            t.get_justifications(FactHandle::new(h)).last().map_or(false, |j| {
+                j.justification_type == rust_rule_engine::rete::tms::JustificationType::Logical
+                    && j.source_rule.as_deref() == Some(name)
+                    && j.premise_facts.iter().map(|p| p.id()).collect::<Vec<_>>() == ps
+            })
+        };
+        if ok(self.eng.tms()) && ok(&self.twin) { "" } else { "!rulename" }
+    }
     fn next(&self) -> u64 {
         self.types.len() as u64 + 1
     }
@@ -307,7 +385,11 @@ impl Run {
         if explicit {
             self.twin.add_explicit_justification(h);
         } else {
-            self.twin.add_logical_justification(h, "rule".to_string(), hs(ps));
+            let name = self.rule_name("rule");
+            self.twin.add_logical_justification(h, name.clone(), hs(ps));
+            if flag.is_empty() {
+                flag = self.name_flag(h.id(), &name, ps);
+            }
         }
         format!("h{}{}", h.id(), flag)
     }
@@ -396,7 +478,7 @@ impl Run {
 }
 
 fn exec(case: &str) -> String {
-    let Some(ops) = parse_case(case) else { return "bad-case".into() };
+    let Some((ops, names)) = parse_case_named(case) else { return "bad-case".into() };
     let k = universe(&ops);
     let ext = has_ext(&ops);
     let script: Script = Arc::new(Mutex::new((None, 0)));
@@ -408,12 +490,14 @@ fn exec(case: &str) -> String {
         k,
         deep: ext || k <= 40,
         steps: Vec::new(),
+        name: None,
     };
     if ext {
         setup_engine(&mut r.eng, &script);
     }
     let mut naux = 0usize;
-    for op in &ops {
+    for (op, name) in ops.iter().zip(&names) {
+        r.name = *name;
         let res = match op {
             Op::I => {
                 let h = r.eng.insert("F".to_string(), data_id(1, r.next()));
@@ -424,13 +508,14 @@ fn exec(case: &str) -> String {
                 r.created(h, "F", true, &[])
             }
             Op::L(ps) => {
-                let h = r.eng.insert_logical("D".to_string(), data_id(3, r.next()), "rule".to_string(), hs(ps));
+                let h = r.eng.insert_logical("D".to_string(), data_id(3, r.next()), r.rule_name("rule"), hs(ps));
                 r.created(h, "D", false, ps)
             }
             Op::J(f, ps) => {
-                r.eng.tms_mut().add_logical_justification(FactHandle::new(*f), "rule2".to_string(), hs(ps));
-                r.twin.add_logical_justification(FactHandle::new(*f), "rule2".to_string(), hs(ps));
-                "u".to_string()
+                let name = r.rule_name("rule2");
+                r.eng.tms_mut().add_logical_justification(FactHandle::new(*f), name.clone(), hs(ps));
+                r.twin.add_logical_justification(FactHandle::new(*f), name.clone(), hs(ps));
+                format!("u{}", r.name_flag(*f, &name, ps))
             }
             Op::X(f) => {
                 r.eng.tms_mut().add_explicit_justification(FactHandle::new(*f));
@@ -479,7 +564,7 @@ fn exec(case: &str) -> String {
                     let got: Vec<u64> = r.eng.resolve_premise_keys(keys).iter().map(|h| h.id()).collect();
                     let want: Vec<u64> = ps.iter().copied().filter(|p| r.present(*p) && !r.noid.contains(p)).collect();
                     let flag = if got != want { "!resolve" } else { "" };
-                    let h = r.eng.insert_logical("D".to_string(), data_id(3, r.next()), "rule".to_string(), hs(ps));
+                    let h = r.eng.insert_logical("D".to_string(), data_id(3, r.next()), r.rule_name("rule"), hs(ps));
                     format!("{}{}", r.created(h, "D", false, ps), flag)
                 }
                 Ext::U(h) => {
@@ -541,7 +626,7 @@ fn exec(case: &str) -> String {
                         }
                         Act::I => (ActionResult::InsertFact { fact_type: "F".to_string(), data: data_id(8, next) }, false),
                         Act::L(ps) => (
-                            ActionResult::InsertLogicalFact { fact_type: "D".to_string(), data: data_id(9, next), rule_name: "rule".to_string(), premises: hs(ps) },
+                            ActionResult::InsertLogicalFact { fact_type: "D".to_string(), data: data_id(9, next), rule_name: r.rule_name("rule"), premises: hs(ps) },
                             false,
                         ),
                         Act::U(x) => (ActionResult::Update(FactHandle::new(*x)), false),
@@ -1705,6 +1790,69 @@ fn reach_families(rng: &mut Rng, n: usize, tier: &str, out: &mut Vec<String>) {
     }
 }
 
+/// FAMILY "the source-rule name as an input": histories of every other family with the rule name of each logical insertion /
+/// justification drawn from `RULE_NAMES` (empty, blank, very long, non-ASCII, equal for different justifications, equal to a
+/// fact type / another rule / the words the code uses for justification kinds). The name is a label: model and oracle ignore it.
+fn rule_name_family(rng: &mut Rng, n: usize, tier: &str, out: &mut Vec<String>) {
+    let nn = rule_names().len();
+    let decorate = |ops: &[Op], pick: &mut dyn FnMut(usize) -> Option<usize>| -> Option<String> {
+        let mut k = 0usize;
+        let names: Vec<Option<usize>> = ops
+            .iter()
+            .map(|o| {
+                if is_logical_tok(o) {
+                    k += 1;
+                    pick(k - 1)
+                } else {
+                    None
+                }
+            })
+            .collect();
+        if names.iter().all(|x| x.is_none()) { None } else { Some(show_case_named(ops, &names)) }
+    };
+    // (a) every short history with a logical insertion and a retraction: the same name everywhere (each name in turn), the
+    //     first / the last logical token alone named, and a different name per token
+    let mut base: Vec<String> = Vec::new();
+    exhaustive(4, 3, &mut base);
+    shapes_all_orders(&mut base);
+    reach_shapes(&mut base);
+    let mut turn = 0usize;
+    for c in &base {
+        let Some(ops) = parse_case(c) else { continue };
+        let nl = ops.iter().filter(|o| is_logical_tok(o)).count();
+        if nl == 0 || !ops.iter().any(|o| matches!(o, Op::R(_) | Op::Ext(Ext::K(_)) | Op::Ext(Ext::F(Act::R(_))) | Op::Ext(Ext::F(Act::T(_))))) {
+            continue;
+        }
+        turn += 1;
+        let a = turn % nn;
+        out.extend(decorate(&ops, &mut |_| Some(a)));
+        // the empty name and its nearest relatives get every shape
+        let e = [0usize, 1, 2][turn % 3];
+        out.extend(decorate(&ops, &mut |i| if i == 0 { Some(e) } else { None }));
+        if nl > 1 {
+            out.extend(decorate(&ops, &mut |i| if i + 1 == nl { Some(e) } else { None }));
+            out.extend(decorate(&ops, &mut |i| Some((a + i * 7) % nn)));
+            out.extend(decorate(&ops, &mut |i| if i % 2 == 0 { Some(0) } else { Some(3) }));
+        }
+    }
+    // (b) random histories (small bound and reach ops), names drawn per logical insertion
+    let m = if tier == "thorough" { n } else { n / 2 };
+    for i in 0..m {
+        let ops = if i % 4 == 3 { reach_random(rng, 14, 8, true, 0) } else { random_history(rng, 10, 7, i % 8 != 7) };
+        let small = rng.chance(1, 2);
+        let s = decorate(&ops, &mut |_| {
+            if rng.chance(1, 5) {
+                None
+            } else if small {
+                Some(rng.below(4) as usize)
+            } else {
+                Some(rng.below(nn as u64) as usize)
+            }
+        });
+        out.extend(s);
+    }
+}
+
 fn gen(rng: &mut Rng, n: usize, tier: &str) -> Vec<String> {
     let mut out = Vec::new();
     let (maxlen, maxf) = if tier == "thorough" { (6usize, 4u64) } else { (5usize, 4u64) };
@@ -1721,6 +1869,7 @@ fn gen(rng: &mut Rng, n: usize, tier: &str) -> Vec<String> {
     long_sessions(rng, tier, &mut out);
     wide_justifications(rng, tier, &mut out);
     reach_families(rng, n, tier, &mut out);
+    rule_name_family(rng, n, tier, &mut out);
     out
 }
 
@@ -2027,8 +2176,72 @@ fn minimise_in_child(case: &str) -> Option<String> {
     }
 }
 
+/// candidates for a history with rule names: the names go (all at once, then one at a time) or become the empty name, then
+/// operations are removed / premises dropped with the names kept on the tokens that stay
+fn shrink_named(ops: &[Op], names: &[Option<usize>], case: &str) -> Vec<String> {
+    let mut out: Vec<String> = Vec::new();
+    out.push(show_case(ops));
+    for i in 0..ops.len() {
+        if names[i].is_some() {
+            let mut n2 = names.to_vec();
+            n2[i] = None;
+            out.push(show_case_named(ops, &n2));
+        }
+    }
+    let creating = |o: &Op| !kinds_of(o).is_empty();
+    for pass in 0..2 {
+        for i in (0..ops.len()).rev() {
+            if creating(&ops[i]) == (pass == 1) {
+                let (mut v, mut n2) = (ops.to_vec(), names.to_vec());
+                v.remove(i);
+                n2.remove(i);
+                out.push(show_case_named(&v, &n2));
+                if pass == 1 && !has_ext(ops) {
+                    // the fact goes with renumbering (names follow their tokens: a creating token that stays keeps its place
+                    // among the creating tokens only when nothing else disappears with it, so only that case is offered)
+                    let created_before = ops[..i].iter().filter(|o| creating(o)).count() as u64;
+                    let w = remove_facts(ops, &[created_before + 1]);
+                    if w.len() + 1 == ops.len() {
+                        out.push(show_case_named(&w, &n2));
+                    }
+                }
+            }
+        }
+    }
+    for i in 0..ops.len() {
+        let simpler: Vec<Op> = match &ops[i] {
+            Op::L(ps) if ps.len() > 1 => shrink_list(ps).into_iter().filter(|v| !v.is_empty()).map(Op::L).collect(),
+            Op::J(f, ps) if ps.len() > 1 => shrink_list(ps).into_iter().filter(|v| !v.is_empty()).map(|v| Op::J(*f, v)).collect(),
+            Op::Ext(Ext::Lk(ps)) => vec![Op::L(ps.clone())],
+            Op::Ext(Ext::F(Act::L(ps))) if ps.len() > 1 => {
+                shrink_list(ps).into_iter().filter(|v| !v.is_empty()).map(|v| Op::Ext(Ext::F(Act::L(v)))).collect()
+            }
+            Op::Ext(Ext::N) | Op::Ext(Ext::P) | Op::Ext(Ext::D) | Op::Ext(Ext::G) => vec![Op::I],
+            _ => vec![],
+        };
+        for v in simpler {
+            let mut o2 = ops.to_vec();
+            o2[i] = v;
+            out.push(show_case_named(&o2, names));
+        }
+    }
+    for i in 0..ops.len() {
+        if names[i].map_or(false, |x| x != 0) {
+            let mut n2 = names.to_vec();
+            n2[i] = Some(0);
+            out.push(show_case_named(ops, &n2));
+        }
+    }
+    let mut seen = std::collections::HashSet::new();
+    out.retain(|c| !c.is_empty() && c != case && seen.insert(c.clone()));
+    out
+}
+
 fn shrink(case: &str) -> Vec<String> {
-    let Some(ops) = parse_case(case) else { return vec![] };
+    let Some((ops, names)) = parse_case_named(case) else { return vec![] };
+    if names.iter().any(|n| n.is_some()) {
+        return shrink_named(&ops, &names, case);
+    }
     if has_ext(&ops) {
         // histories with reach ops: operations removed (handles keep their numbers only when no creating operation goes,
         // so those candidates come first), a reach op replaced by the basic one it stands for, premises dropped
